@@ -60,6 +60,7 @@ struct lpmon {
 	uint64_t trk_proc, trk_total;
 	/* C07: history index of the event at which the runtime latched "this LP has terminated" (0 = not latched) */
 	size_t latch_idx;
+	bool commit_broken;
 };
 static struct lpmon LM[MODEL_MAX_LPS];
 
@@ -84,7 +85,7 @@ static struct {
 } M;
 
 /* shadow of every message sitting between msg_queue_insert and msg_queue_extract: open-addressing set keyed by address */
-#define PEND_CAP (1u << 17)
+#define PEND_CAP (1u << 19)
 static struct pend_ent {
 	struct lp_msg *m;
 	double ts;
@@ -107,10 +108,8 @@ static void pend_add(struct lp_msg *m)
 {
 	if(pend_find(m))
 		sim_violation("C06", "double-insert", "message %p (t=%g) inserted while already queued", (void *)m, m->dest_t);
-	if(pend_n >= PEND_CAP / 2) {
-		fprintf(stderr, "HARNESS: pending-message mirror full\n");
-		abort();
-	}
+	if(pend_n >= PEND_CAP / 2)
+		sim_finish("skip"); /* a thrashing run outgrew the harness; neither ok nor a violation */
 	unsigned i = pend_slot(m);
 	while(pend[i].m)
 		i = (i + 1) & (PEND_CAP - 1);
@@ -345,7 +344,7 @@ struct lp_msg *verif_wrap_msg_queue_extract(void)
 	if(c->in_round && m->dest_t < c->round_min)
 		c->round_min = m->dest_t;
 	if(m->dest_t < c->last_gvt)
-		sim_violation("C04", "extract-below-gvt", "thread %d extracted a message with t=%g after being told GVT=%g",
+		sim_violation_soft("C04", "extract-below-gvt", "thread %d extracted a message with t=%g after being told GVT=%g",
 		    vt_self->id, m->dest_t, c->last_gvt);
 	lp_id_t d = m->dest;
 	if(d >= (lp_id_t)P.n_lps || LM[d].owner_vt != vt_self->id || LM[d].init_count != 1)
@@ -366,13 +365,13 @@ static void check_pending_above(double g, const char *when)
 			continue;
 		seen++;
 		if(pend[i].ts < g)
-			sim_violation("C04", "pending-below-gvt", "%s GVT=%g while a message with t=%g is still queued (dest LP %llu)",
+			sim_violation_soft("C04", "pending-below-gvt", "%s GVT=%g while a message with t=%g is still queued (dest LP %llu)",
 			    when, g, pend[i].ts, (unsigned long long)pend[i].m->dest);
 	}
 	if(fakempi_min_in_flight) {
 		double f = fakempi_min_in_flight();
 		if(f < g)
-			sim_violation("C04", "in-flight-below-gvt", "%s GVT=%g while a message with t=%g is in MPI flight", when, g, f);
+			sim_violation_soft("C04", "in-flight-below-gvt", "%s GVT=%g while a message with t=%g is in MPI flight", when, g, f);
 	}
 }
 
@@ -380,14 +379,14 @@ void verif_wrap_termination_on_gvt(simtime_t g)
 {
 	struct tctx *c = tc();
 	if(g < c->last_gvt)
-		sim_violation("C04", "gvt-decreased", "thread %d was told GVT=%g after GVT=%g", vt_self->id, g, c->last_gvt);
+		sim_violation_soft("C04", "gvt-decreased", "thread %d was told GVT=%g after GVT=%g", vt_self->id, g, c->last_gvt);
 	unsigned k = c->n_gvt++;
 	if(k < GVT_ROUNDS_MAX) {
 		if(k >= M.rounds_known) {
 			M.round_gvt[k] = g;
 			M.rounds_known = k + 1;
 		} else if(M.round_gvt[k] != g) {
-			sim_violation("C04", "gvt-disagree", "round %u: thread %d was told GVT=%g, another thread %g", k, vt_self->id, g,
+			sim_violation_soft("C04", "gvt-disagree", "round %u: thread %d was told GVT=%g, another thread %g", k, vt_self->id, g,
 			    M.round_gvt[k]);
 		}
 	}
@@ -395,7 +394,7 @@ void verif_wrap_termination_on_gvt(simtime_t g)
 		fprintf(stderr, "DBG sps=%llu t%d r%d REPORT g=%g in_round=%d round_min=%g\n", (unsigned long long)G.sps, vt_self->id, vt_self->rank, g,
 		    c->in_round, c->round_min);
 	if(c->in_round && c->round_min < g)
-		sim_violation("C04", "gvt-above-own-extraction",
+		sim_violation_soft("C04", "gvt-above-own-extraction",
 		    "thread %d is told GVT=%g although it extracted a message with t=%g after it had joined this reduction", vt_self->id, g,
 		    c->round_min);
 	c->in_round = false;
@@ -453,10 +452,10 @@ void engine_on_sp(struct vthread *t, int kind, const volatile void *addr)
 	for(lp_id_t i = c->first; i < c->end; i++) {
 		struct ref_lp *R = &REF[i];
 		if(R->first_true == -2)
-			sim_violation("C07", "vote-never-true", "thread %d voted at GVT=%g but LP %llu never satisfies its predicate",
+			sim_violation_soft("C07", "vote-never-true", "thread %d voted at GVT=%g but LP %llu never satisfies its predicate",
 			    t->id, g, (unsigned long long)i);
 		if(R->first_true >= 0 && !(R->first_true_ts < g))
-			sim_violation("C07", "vote-premature",
+			sim_violation_soft("C07", "vote-premature",
 			    "thread %d voted at GVT=%g but the predicate of LP %llu first holds at t=%g (event #%ld)", t->id, g,
 			    (unsigned long long)i, R->first_true_ts, R->first_true);
 	}
@@ -473,7 +472,7 @@ void verif_wrap_termination_on_lp_rollback(struct lp_ctx *lp, simtime_t msg_time
 	if(c->in_round && msg_time < c->round_min)
 		c->round_min = msg_time;
 	if(msg_time < c->last_gvt)
-		sim_violation("C04", "rollback-below-gvt", "LP %llu rolled back to t=%g after its thread was told GVT=%g",
+		sim_violation_soft("C04", "rollback-below-gvt", "LP %llu rolled back to t=%g after its thread was told GVT=%g",
 		    (unsigned long long)me, msg_time, c->last_gvt);
 	/* C05: restore + coast-forward must reproduce the state recorded at this history index */
 	struct lpmon *L = &LM[me];
@@ -491,7 +490,7 @@ void verif_wrap_termination_on_lp_rollback(struct lp_ctx *lp, simtime_t msg_time
 	if(idx < L->hist_cap && L->hist_digest[idx]) {
 		uint64_t now = system_digest(rank, me);
 		if(now != L->hist_digest[idx])
-			sim_violation("C05", "state-after-rollback",
+			sim_violation_soft("C05", "state-after-rollback",
 			    "LP %llu: state after rollback to history index %zu (t<%g) differs from the state recorded there "
 			    "(differs: model=%d rng=%d live-set=%d)",
 			    (unsigned long long)me, idx, msg_time, model_state_digest(lp->state_pointer) != L->hist_parts[idx][0],
@@ -511,7 +510,7 @@ void verif_wrap_termination_on_lp_rollback(struct lp_ctx *lp, simtime_t msg_time
 	/* C07: if the event at which the runtime latched the termination of this LP has just been undone, the latch must go too */
 	if(L->latch_idx > idx) {
 		if(lp->termination_t != M.unlatched && lp->termination_t != SIMTIME_MAX)
-			sim_violation("C07", "stale-termination",
+			sim_violation_soft("C07", "stale-termination",
 			    "LP %llu: the event (history index %zu) on which its termination was latched was undone by a rollback to index %zu (t=%g), "
 			    "but the LP is still marked terminated at t=%g", (unsigned long long)me, L->latch_idx, idx, msg_time, lp->termination_t);
 		L->latch_idx = 0;
@@ -573,18 +572,10 @@ array_count_t verif_wrap_model_allocator_fossil_lp_collect(struct mm_state *self
 	return r;
 }
 
-/* a committed-history violation found while the run is being torn down is held back until the end-state oracles of C01/C02 have
- * spoken too, so that one run can be attributed to both */
-static char soft_prop[8], soft_cls[48], soft_msg[700];
 #define COMMIT_VIOLATION(cls, ...)                                                                                     \
 	do {                                                                                                           \
-		if(strcmp(where, "shutdown"))                                                                          \
-			sim_violation("C03", cls, __VA_ARGS__);                                                        \
-		if(!soft_prop[0]) {                                                                                    \
-			snprintf(soft_prop, sizeof(soft_prop), "C03");                                                 \
-			snprintf(soft_cls, sizeof(soft_cls), "%s", cls);                                               \
-			snprintf(soft_msg, sizeof(soft_msg), __VA_ARGS__);                                             \
-		}                                                                                                      \
+		sim_violation_soft("C03", cls, __VA_ARGS__);                                                           \
+		L->commit_broken = true; /* everything after it would mismatch too */                                  \
 		return;                                                                                                \
 	} while(0)
 
@@ -593,7 +584,7 @@ static void commit_entry(lp_id_t me, const struct ev_rec *e, double gvt, const c
 	struct lpmon *L = &LM[me];
 	struct ref_lp *R = &REF[me];
 	size_t k = L->committed;
-	if(soft_prop[0])
+	if(L->commit_broken)
 		return;
 	if(k >= R->n_seq)
 		COMMIT_VIOLATION("committed-extra", "LP %llu: %s committed event #%zu (t=%g type=%u) that the sequential run never delivers (GVT=%g)",
@@ -646,7 +637,7 @@ void verif_wrap_fossil_lp_collect(struct lp_ctx *lp)
 		if(!past[i] || snap[i].type == LP_INIT)
 			continue;
 		if(!(snap[i].ts < g))
-			sim_violation("C13", "released-uncommitted", "LP %llu: fossil collection at GVT=%g released event t=%g",
+			sim_violation_soft("C13", "released-uncommitted", "LP %llu: fossil collection at GVT=%g released event t=%g",
 			    (unsigned long long)me, g, snap[i].ts);
 		commit_entry(me, &snap[i], g, "fossil collection");
 	}
@@ -793,10 +784,12 @@ void verif_wrap_lp_init(void)
 #define __asan_poison_memory_region(a, n) ((void)0)
 #define __asan_unpoison_memory_region(a, n) ((void)0)
 #endif
-#define BUF_TAB 32768u
+#define BUF_TAB (1u << 18)
 static struct buf_ent {
 	struct lp_msg *m;
 	bool live;
+	uint8_t ea_state; /* 0: not a remote anti-message, 1: extracted and being handled, 2: handled and still alive (must be listed) */
+	unsigned ea_lp;
 	uint32_t gen;
 } buf_tab[BUF_TAB];
 static uint64_t buf_allocs, buf_frees;
@@ -805,7 +798,7 @@ extern bool fakempi_buffer_in_flight(const void *lo, const void *hi) __attribute
 static struct buf_ent *buf_find(struct lp_msg *m, bool create)
 {
 	unsigned h = (unsigned)(((uintptr_t)m >> 4) * 2654435761u) & (BUF_TAB - 1);
-	for(unsigned k = 0; k < BUF_TAB; k++) {
+	for(unsigned k = 0; k < 4096; k++) {
 		struct buf_ent *e = &buf_tab[(h + k) & (BUF_TAB - 1)];
 		if(e->m == m)
 			return e;
@@ -820,74 +813,46 @@ static struct buf_ent *buf_find(struct lp_msg *m, bool create)
 }
 
 /* remote anti-messages that were extracted and not (yet) released: each must sit in the early-anti list of its LP until it
- * annihilates its positive copy; an entry that silently vanishes from the list means a cancellation got lost */
-#define EA_MAX 2048
-static struct ea_ent {
-	struct lp_msg *m;
-	int owner_vt;
-	bool settled;
-} ea_tab[EA_MAX];
-static unsigned ea_n;
-
-static void ea_forget(struct lp_msg *m)
-{
-	for(unsigned i = 0; i < ea_n; i++)
-		if(ea_tab[i].m == m) {
-			if(g_verbose)
-				fprintf(stderr, "EA sps=%llu forget %p by t%d\n", (unsigned long long)G.sps, (void *)m, vt_self ? vt_self->id : -1);
-			ea_tab[i] = ea_tab[--ea_n];
-			return;
-		}
-}
+ * annihilates its positive copy; an entry that silently vanishes from the list means a cancellation got lost.
+ * Kept as counters per LP (the life-cycle table remembers which buffers are such entries): the list of an LP is only looked at
+ * by its owner, when it extracts a message for that LP, i.e. between two of its own event executions. */
+static struct buf_ent *buf_find(struct lp_msg *m, bool create);
+static unsigned ea_cnt[MODEL_MAX_LPS];
+static struct lp_msg *ea_unsettled[VT_MAX];
 
 static void ea_on_extract(struct lp_msg *m)
 {
 	int me = vt_self->id;
-	for(unsigned i = 0; i < ea_n; i++) {
-		struct ea_ent *e = &ea_tab[i];
-		/* only the owner of the LP looks, and only between two of its own extractions: with basic-block preemption any
-		 * other instant may fall between the unlinking and the release */
-		if(e->owner_vt != me)
-			continue;
-		if(!e->settled) {
-			e->settled = true; /* this thread has now finished handling it: it was matched (released) or listed */
+	if(ea_unsettled[me]) {
+		/* this thread has finished handling the previous remote anti-message: it was matched (released) or listed */
+		struct buf_ent *e = buf_find(ea_unsettled[me], false);
+		if(e && e->live && e->ea_state == 1) {
+			e->ea_state = 2;
+			ea_cnt[e->ea_lp]++;
 		}
-		lp_id_t d = e->m->dest;
-		if(LM[d].fini_count)
-			continue;
-		bool listed = false;
-		for(struct lp_msg *a = lp_of(LM[d].owner_rank, d)->p.early_antis; a && !listed; a = a->next)
-			listed = a == e->m;
-		if(!listed && g_verbose) {
-			fprintf(stderr, "EA sps=%llu LOST %p lp=%llu owner t%d checker t%d list:", (unsigned long long)G.sps, (void *)e->m,
-			    (unsigned long long)d, e->owner_vt, me);
-			for(struct lp_msg *a = lp_of(LM[d].owner_rank, d)->p.early_antis; a; a = a->next)
-				fprintf(stderr, " %p", (void *)a);
-			fprintf(stderr, " | a.flags=%x a.seq=%u a.next=%p owner_rank=%d checker_rank=%d |", e->m->raw_flags, e->m->m_seq, (void *)e->m->next,
-			    LM[d].owner_rank, vt_self->rank);
-			for(lp_id_t q = 0; q < (lp_id_t)P.n_lps; q++)
-				for(struct lp_msg *a = lp_of(LM[q].owner_rank, q)->p.early_antis; a; a = a->next)
-					if(a == e->m)
-						fprintf(stderr, " FOUND-IN-LP-%llu", (unsigned long long)q);
-			struct lp_ctx *lpd = lp_of(LM[d].owner_rank, d);
-			for(array_count_t k = 0; k < array_count(lpd->p.p_msgs); k++)
-				if(unmark_msg(array_get_at(lpd->p.p_msgs, k)) == e->m)
-					fprintf(stderr, " IN-HISTORY@%u(tag %lu)", k, (unsigned long)((uintptr_t)array_get_at(lpd->p.p_msgs, k) & 3));
-			if(pend_find(e->m))
-				fprintf(stderr, " STILL-QUEUED");
-			fprintf(stderr, "\n");
-		}
-		if(!listed)
-			sim_violation("C06", "early-anti-lost",
-			    "a remote anti-message for LP %llu (t=%g) that overtook its event is neither released nor in the LP's early anti-message list any more: "
-			    "the event it cancels will be delivered", (unsigned long long)d, e->m->dest_t);
+		ea_unsettled[me] = NULL;
 	}
-	if(m && (m->raw_flags & MSG_FLAG_ANTI) && m->raw_flags > (MSG_FLAG_ANTI | MSG_FLAG_PROCESSED) && ea_n < EA_MAX) {
-		ea_tab[ea_n++] = (struct ea_ent){m, me, false};
-		if(g_verbose)
-			fprintf(stderr, "EA sps=%llu add %p lp=%llu t=%g flags=%x seq=%u by t%d\n", (unsigned long long)G.sps, (void *)m,
-			    (unsigned long long)m->dest, m->dest_t, m->raw_flags, m->m_seq, me);
-		probe_hit("remote_anti_extracted");
+	if(!m)
+		return;
+	lp_id_t d = m->dest;
+	if(d < (lp_id_t)P.n_lps && LM[d].owner_vt == me && !LM[d].fini_count) {
+		unsigned n = 0;
+		for(struct lp_msg *a = lp_of(vt_self->rank, d)->p.early_antis; a && n <= ea_cnt[d]; a = a->next)
+			n++;
+		if(n != ea_cnt[d])
+			sim_violation_soft("C06", "early-anti-lost",
+			    "LP %llu: %u remote anti-message(s) that overtook their events were neither matched nor released, but the LP's early "
+			    "anti-message list holds %s%u: a cancellation got lost and the cancelled event will be delivered",
+			    (unsigned long long)d, ea_cnt[d], n > ea_cnt[d] ? "more than " : "", n > ea_cnt[d] ? ea_cnt[d] : n);
+	}
+	if((m->raw_flags & MSG_FLAG_ANTI) && m->raw_flags > (MSG_FLAG_ANTI | MSG_FLAG_PROCESSED) && d < (lp_id_t)P.n_lps) {
+		struct buf_ent *e = buf_find(m, false);
+		if(e && e->live) {
+			e->ea_state = 1;
+			e->ea_lp = (unsigned)d;
+			ea_unsettled[me] = m;
+			probe_hit("remote_anti_extracted");
+		}
 	}
 }
 
@@ -898,10 +863,11 @@ void verif_hook_msg_alloc(struct lp_msg *msg)
 	__asan_unpoison_memory_region(msg, sizeof(struct lp_msg));
 	struct buf_ent *e = buf_find(msg, true);
 	if(!e)
-		return;
+		sim_finish("skip"); /* more distinct buffers than the harness can follow; neither ok nor a violation */
 	if(e->live)
 		sim_violation("C06", "buffer-handed-out-twice", "message buffer %p handed out while still in use", (void *)msg);
 	e->live = true;
+	e->ea_state = 0;
 	e->gen++;
 	buf_allocs++;
 }
@@ -912,11 +878,17 @@ void verif_hook_msg_free(struct lp_msg *msg)
 		return;
 	struct buf_ent *e = buf_find(msg, false);
 	buf_frees++;
-	ea_forget(msg);
+	bool was_listed_anti = false;
 	if(e) {
 		if(!e->live)
 			sim_violation("C06", "double-release", "message buffer %p (t=%g) released twice", (void *)msg, msg->dest_t);
 		e->live = false;
+		if(e->ea_state == 2) {
+			was_listed_anti = true;
+			if(ea_cnt[e->ea_lp])
+				ea_cnt[e->ea_lp]--;
+		}
+		e->ea_state = 0;
 	}
 	if(!P.serial) {
 		struct pend_ent *pe = pend_find(msg);
@@ -944,9 +916,10 @@ void verif_hook_msg_free(struct lp_msg *msg)
 						sim_violation("C06", "released-while-in-history",
 						    "message %p (t=%g) released while it is entry %u of the live history of LP %llu", (void *)msg,
 						    msg->dest_t, i, (unsigned long long)d);
-			for(struct lp_msg *a = lp->p.early_antis; a; a = a->next)
-				if(a == msg)
-					sim_violation("C06", "released-early-anti", "early anti-message %p released while still listed", (void *)msg);
+			if(was_listed_anti)
+				for(struct lp_msg *a = lp->p.early_antis; a; a = a->next)
+					if(a == msg)
+						sim_violation("C06", "released-early-anti", "early anti-message %p released while still listed", (void *)msg);
 		}
 	}
 	if(msg->pl_size <= MSG_PAYLOAD_BASE_SIZE) {
@@ -1056,10 +1029,9 @@ void tw_run(void)
 	memset(&M, 0, sizeof(M));
 	memset(TC, 0, sizeof(TC));
 	memset(LM, 0, sizeof(LM));
-	soft_prop[0] = 0;
-	ea_n = 0;
-	pend_n = 0;
-	memset(pend, 0, sizeof(pend));
+	memset(ea_cnt, 0, sizeof(ea_cnt));
+	memset(ea_unsettled, 0, sizeof(ea_unsettled));
+	pend_n = 0; /* the mirror itself is zero: every run is a fresh fork of a parent that never touches it */
 	for(int i = 0; i < MODEL_MAX_LPS; i++)
 		LM[i].owner_vt = -1;
 	snprintf(M.stats_path, sizeof(M.stats_path), "/verif/.work/stats_%d", (int)getpid());
@@ -1294,18 +1266,13 @@ static void final_checks(void)
 				sim_violation("C07", "final-state-predicate", "LP %llu is finalised in a state that does not satisfy its predicate",
 				    (unsigned long long)i);
 			if(LM[i].fini_digest != REF[i].digest_first_true) {
-				if(soft_prop[0]) {
-					sim_note("also=%s:final-state ", P.n_ranks > 1 ? "C02" : "C01");
-					break;
-				}
 				sim_violation(P.n_ranks > 1 ? "C02" : "C01", "final-state",
 				    "LP %llu: state at LP_FINI differs from the sequential execution (ref events %zu, handled fw %llu)",
 				    (unsigned long long)i, REF[i].n_seq, (unsigned long long)LM[i].forward);
 			}
 		}
 	}
-	if(soft_prop[0])
-		sim_violation(soft_prop, soft_cls, "%s", soft_msg);
+
 }
 
 /* ------------------------------------------------------------------ hooks called by the scheduler */
